@@ -256,4 +256,22 @@ example : IceGen.writeStreamingPacket 65535 false 65537
       = ([IceModel.Eff.call "fillHeader" [], IceModel.Eff.call "fillBody" []], (8, "nil")) ∧
     IceGen.readStreamingPacket true 8 8 false 8 = ([IceModel.Eff.call "fillHeader" []], (0, "err")) := by decide
 
+/-! ### the packet connection's `ReadFrom` and the caller's buffer -/
+
+/-- **A packet is handed over whole or not at all.**  For every caller buffer length and every queued packet,
+`tcpPacketConn.ReadFrom` returns either the packet itself — and then it fits the buffer's LENGTH, the only part of the
+slice the caller looks at — or `io.ErrShortBuffer` with nothing; never a truncated packet.  (After the fix of F35.) -/
+theorem C14_packetconn_read_whole (blen : Nat) (p : List UInt8) :
+    (packetConnRead blen p = some p ∧ p.length ≤ blen) ∨ (packetConnRead blen p = none ∧ blen < p.length) := by
+  unfold packetConnRead
+  by_cases h : blen < p.length
+  · right; simp [h]
+  · left; simp [h]; omega
+
+/-- the code with finding F35 tested the buffer's CAPACITY and copied its LENGTH: with `len 0, cap 1` a one-byte
+packet was reported as read (`n = 1`) although no byte of it reached the caller — not a behaviour of the repaired model -/
+theorem C14_packetconn_read_F35_witness : packetConnRead 0 [7] = none ∧ packetConnRead 1 [7] = some [7] := by decide
+
+example : packetConnRead 4 [1, 2, 3, 4] = some [1, 2, 3, 4] ∧ packetConnRead 3 [1, 2, 3, 4] = none := by decide
+
 end IceProps.C14
